@@ -107,6 +107,9 @@ def who_may_rebind(prog, rep):
                             ok = (not data_cls) or rebind_allowed(prog, fn)
                         elif isinstance(tt.value, ast.Name) and tt.attr != "values":
                             ok = fresh_local(fn.node, tt.value.id)      # e.g. get_subset fills the list of the copy it has just made
+                        elif isinstance(tt.value, ast.Name) and fn.name.startswith("_") and not fn.name.startswith("__"):
+                            # a private helper that is handed the array: allowed when it is reachable only from the validating / in-place API
+                            ok = rebind_allowed(prog, fn)
                         else:
                             ok = False
                         rep.oblige(rid, ok, where=fn.qual, what=ast.unparse(node)[:100])
